@@ -24,9 +24,9 @@ class Cfg:
         return "c%d%s%s.ch%d.fh%d%s" % (self.comp, "D" if self.dict else "", "U" if self.uncomp else "", self.chash,
                                          self.fhash, ".l%d" % self.level if self.level >= 0 else "")
 
-    def line(self, manual=1, mn=0, mx=0, mx2=0):
-        return "cfg comp=%d dict=%s uncomp=%d chash=%d fhash=%d manual=%d min=%d max=%d max2=%d level=%d" % (
-            self.comp, self.dict.hex() if self.dict else "-", self.uncomp, self.chash, self.fhash, manual, mn, mx, mx2, self.level)
+    def line(self, manual=1, mn=0, mx=0, mx2=0, refuse=0):
+        return "cfg comp=%d dict=%s uncomp=%d chash=%d fhash=%d manual=%d min=%d max=%d max2=%d level=%d refuse=%d" % (
+            self.comp, self.dict.hex() if self.dict else "-", self.uncomp, self.chash, self.fhash, manual, mn, mx, mx2, self.level, refuse)
 
     def flags(self):
         return 4 if self.uncomp else 0
